@@ -110,6 +110,7 @@ def check_case(inputs, cmps, job, registry):
 def falsify(ctx):
     rng = ctx.rng("fals")
     registry = stages.make_registry()
+    registry_dt = stages.make_registry(datetime=True)
     focus = common.focus_cases(ctx)
     n = ctx.n(300, 8000)
     for i in range(len(focus) + n):
@@ -129,8 +130,18 @@ def falsify(ctx):
             cmps = []
             job.update({"maxLit": rng.choice([10, 16, 20]), "fw": rng.choice(["base", "dataclasses", "pydantic", "sqlmodel"])})
             job.pop("renderFirst", None)
+        reg_i = registry
+        if i >= len(focus) and i % 15 == 4:
+            # classes whose names would coincide with the string-type names the module imports once date/time types are
+            # registered (attrs / dataclasses import them from the library)
+            reg_i = registry_dt
+            inputs = [("Root", [{"iso_date_string": {"a": 1}, "iso_time_strings": [{"b": 2}], "IsoDatetimeString": {"c": 3},
+                                "int_string": {"d": 4}, "day": "2018-12-31", "at": "12:30:00", "ts": "2018-12-31T10:00:00", "n": "12"}])]
+            cmps = []
+            job.update({"fw": rng.choice(["attrs", "dataclasses", "attrs", "pydantic"]), "postInit": rng.random() < 0.3})
+            job.pop("renderFirst", None)
         try:
-            hit, skip = check_case(inputs, cmps, job, registry)
+            hit, skip = check_case(inputs, cmps, job, reg_i)
         except (ZeroDivisionError, stages.TooCostly):
             ctx.count("skip:zero-division")
             continue
@@ -143,14 +154,15 @@ def falsify(ctx):
         ctx.count("fw:" + job["fw"] + "/" + job["layout"])
         ctx.sample({"inputs": inputs, "job": job}, limit=2)
         if hit:
-            hit.update({"input": inputs, "job": job, "cmps": [stages.enc_cmp(c) for c in cmps]})
+            hit.update({"input": inputs, "job": job, "cmps": [stages.enc_cmp(c) for c in cmps], "datetime": reg_i is registry_dt})
             yield hit
 
 
 def replay(ctx, hit):
     from ..worker import cmps_from
     try:
-        h, _ = check_case([tuple(x) for x in hit["input"]], cmps_from(hit["cmps"]), hit["job"], stages.make_registry())
+        h, _ = check_case([tuple(x) for x in hit["input"]], cmps_from(hit["cmps"]), hit["job"],
+                          stages.make_registry(datetime=bool(hit.get("datetime"))))
     except stages.TooCostly:
         raise
     except Exception as e:  # noqa
